@@ -93,11 +93,13 @@ func newIncomingContext(ctx context.Context, header http.Header) (context.Contex
 
 func setOutgoingHeader(header http.Header, md metadata.MD) {
 	for k, vs := range md {
-		if isReservedHeader(k) {
+		// Metadata keys are lower case; one written as a literal may not be.
+		lk := strings.ToLower(k)
+		if isReservedHeader(lk) {
 			continue
 		}
 
-		if strings.HasSuffix(k, binHdrSuffix) {
+		if strings.HasSuffix(lk, binHdrSuffix) {
 			dst := make([]string, len(vs))
 			for i, v := range vs {
 				dst[i] = encodeBinHeader([]byte(v))
